@@ -34,6 +34,9 @@ B = {
     "seeded+edit-leaf": (None, [SA], {}, [], MOD, {"leaf": 5}),
     "seeded+rename": (None, [SA], {}, [], MOD + "renamed", None),
     "seedB": (None, [SB], {}, [], MOD, None),
+    # two seeds longer than 8 bytes sharing their first 8 bytes: every seed byte takes part in name hashing
+    "seedLong1": (None, ["-seed=QUJDREVGR0gwMDAx"], {}, [], MOD, None),
+    "seedLong2": (None, ["-seed=QUJDREVGR0gwMDAy"], {}, [], MOD, None),
     "plain": (None, [], {}, [], MOD, None),
     "plain-again": (None, [], {}, [], MOD, None),
     "plain+literals": (None, ["-literals"], {}, [], MOD, None),
@@ -119,6 +122,7 @@ for pkg in ALLP:
         pairs += 1
         if maps["seeded"][pkg]["dir"] != maps["seeded+rename"][pkg]["dir"] or pkg == "M": pass
 expect_all_differ("seeded", "seedB", ALLP, "seed", both, check_dir=True)
+expect_all_differ("seedLong1", "seedLong2", ALLP, "seed-beyond-8-bytes", both, check_dir=True)
 expect_all_differ("seeded", "seeded+rename", ["M/lib", "M/lib/leaf", "M/side"], "package-path", pkgscoped, check_dir=True)
 expect_equal("seeded", "seeded+rename", ALLP, "package-path(fields)", fields)
 # same identifier in two packages
